@@ -65,11 +65,11 @@ LEDGER = {
                 need=dict(payable_rej=3, tok_ok=20, nonpay_exempt=1)),
     "C10": dict(profile="transfer", preds=["P10_ParserEqualsLedger", "P10_RoundTrip", "P10_Accepted"],
                 mc=([M("ESDTTransfer,ESDTNFTTransfer,MultiESDTNFTTransfer,create,issue", hs=("u0a", "u1a", "c1a"))],
-                    [M("ESDTTransfer,ESDTNFTTransfer,MultiESDTNFTTransfer,create,issue", hs=("u0a", "u1a", "c1a")), M("ESDTTransfer,ESDTNFTTransfer,MultiESDTNFTTransfer,create,handover,acct", hs=("u0a", "u1a"))]),
+                    [M("ESDTTransfer,ESDTNFTTransfer,MultiESDTNFTTransfer,create,issue", hs=("u0a", "u1a", "c1a")), M("ESDTTransfer,MultiESDTNFTTransfer,handover,acct,issue,create", hs=("u0a", "u1a"), accsample=12)]),
                 need=dict(out_msgs=10, parsed=30, deliver_ok=5)),
     "C11": dict(profile="mixed", flags=["-alloc", "-adversarial", "75"], preds=["P11_Shape", "P11_ShapeVerdict", "P11_Alloc"],
                 mc=([M("ESDTTransfer,ESDTNFTTransfer,MultiESDTNFTTransfer,create", rejected=True, hs=("u0a", "u1a")), M("mintburn,metaops,create", rejected=True, hs=("u0a",)), M("kv,flags", rejected=True, hs=("u0a",)), M("acct,handover", rejected=True, hs=("u0a", "u1a"))],
-                    [M("ESDTTransfer,ESDTNFTTransfer,MultiESDTNFTTransfer,create", rejected=True), M("mintburn,metaops,create,flags", rejected=True, hs=("u0a", "u1a")), M("kv,flags,acct", rejected=True, hs=("u0a", "u1a")), M("handover,roles", rejected=True, hs=("u0a", "u1a"))]),
+                    [M("ESDTTransfer,ESDTNFTTransfer,MultiESDTNFTTransfer,create", rejected=True, hs=("u0a", "u1a")), M("mintburn,metaops,create,flags", rejected=True, hs=("u0a", "u1a")), M("kv,flags,acct", rejected=True, hs=("u0a", "u1a")), M("handover,roles", rejected=True, hs=("u0a", "u1a"))]),
                 extra_runs=[("gas", ["-gassweep", "-alloc"], 0.5)],
                 need=dict(shapebad=100, steps=1000, gas_max=20)),
     "C13": dict(profile="mixed", flags=["-triple"], preds=["P13_Replicas", "P13_InputIntact"],
